@@ -4,15 +4,38 @@ From PAFC20 Require Import Gen Model.
 Import ListNotations.
 Open Scope list_scope.
 
-(* what the theorems assume about Python's == and <= on the abscissae (true of non-NaN numbers) *)
-Record order_ok {V} (leb eqb : V -> V -> bool) : Prop := {
-  eqb_refl : forall a, eqb a a = true;
-  eqb_sym : forall a b, eqb a b = true -> eqb b a = true;
-  eqb_trans : forall a b c, eqb a b = true -> eqb b c = true -> eqb a c = true;
-  leb_total : forall a b, leb a b = true \/ leb b a = true;
-  leb_trans : forall a b c, leb a b = true -> leb b c = true -> leb a c = true;
-  leb_antisym : forall a b, leb a b = true -> leb b a = true -> eqb a b = true
+(* what the theorems assume about Python's == and <= on the abscissae: on the carrier `good` (the values
+   that occur: abscissae and query value) <= is a total preorder whose equivalence is ==.
+   Carrier = everything for Z and Q (Witness.Z_order_ok, Proofs4.Q_order_ok); carrier = the non-NaN floats
+   for binary64 (Proofs5.F_order_ok, proved from the IEEE specification axioms of Coq.Floats.FloatAxioms). *)
+Record order_ok_on {V} (good : V -> bool) (leb eqb : V -> V -> bool) : Prop := {
+  eqb_refl : forall a, good a = true -> eqb a a = true;
+  eqb_sym : forall a b, good a = true -> good b = true -> eqb a b = true -> eqb b a = true;
+  eqb_trans : forall a b c, good a = true -> good b = true -> good c = true ->
+                            eqb a b = true -> eqb b c = true -> eqb a c = true;
+  leb_total : forall a b, good a = true -> good b = true -> leb a b = true \/ leb b a = true;
+  leb_trans : forall a b c, good a = true -> good b = true -> good c = true ->
+                            leb a b = true -> leb b c = true -> leb a c = true;
+  leb_antisym : forall a b, good a = true -> good b = true -> leb a b = true -> leb b a = true -> eqb a b = true;
+  (* the carrier is closed under ==: whatever equals a value of the carrier is in the carrier (a NaN equals nothing) *)
+  eqb_good : forall a b, good a = true -> eqb a b = true -> good b = true
 }.
+
+Definition everything {V} (_ : V) : bool := true.
+(* the unrelativised form: the laws hold of every value *)
+Definition order_ok {V} (leb eqb : V -> V -> bool) : Prop := order_ok_on everything leb eqb.
+
+(* every element of a list is in the carrier *)
+Definition allgood {V} (good : V -> bool) (l : list V) : Prop := forall k, In k l -> good k = true.
+
+Lemma allgood_everything {V} (l : list V) : allgood everything l.
+Proof. intros k _. reflexivity. Qed.
+
+Lemma allgood_perm {V} (good : V -> bool) l l' : allgood good l -> Permutation l' l -> allgood good l'.
+Proof. intros G P k I. apply G. apply (Permutation_in _ P I). Qed.
+
+Lemma allgood_tail {V} (good : V -> bool) a l : allgood good (a :: l) -> allgood good l.
+Proof. intros G k I. apply G. right. exact I. Qed.
 
 (* pairwise different abscissae *)
 Definition distinct {V} (eqb : V -> V -> bool) (l : list V) : Prop :=
@@ -85,7 +108,8 @@ Qed.
 Section Dict.
   Context {V : Type}.
   Variable leb eqb : V -> V -> bool.
-  Hypothesis OK : order_ok leb eqb.
+  Variable good : V -> bool.
+  Hypothesis OK : order_ok_on good leb eqb.
   Notation tree := (tree V).
   Notation entry := (entry V).
 
@@ -138,16 +162,23 @@ Section Dict.
   Qed.
 
   Lemma dict_get_eq (d : list (V * entry)) k e v :
+    allgood good (map fst d) ->
     distinct eqb (map fst d) -> In (k, e) d -> eqb k v = true -> dict_get eqb v d = Some e.
   Proof.
-    induction d as [|[k0 e0] r IH]; simpl; intros D I E; [contradiction|].
+    intros G0. assert (Gv : In (k, e) d -> eqb k v = true -> good v = true).
+    { intros I E. apply (eqb_good _ _ _ OK k v); [|exact E]. apply G0. apply in_map_iff. exists (k, e). auto. }
+    revert G0 Gv.
+    induction d as [|[k0 e0] r IH]; simpl; intros G Gv' D I E; [contradiction|].
+    pose proof (Gv' I E) as Gv.
     destruct I as [I|I].
     - inversion I. subst. rewrite E. reflexivity.
     - destruct (eqb k0 v) eqn:E0.
       + exfalso. assert (Ik : In k (map fst r)) by (apply in_map_iff; exists (k, e); auto).
         destruct (distinct_head _ _ _ D Ik) as [X _].
-        rewrite (eqb_trans _ _ OK _ _ _ E0 (eqb_sym _ _ OK _ _ E)) in X. discriminate.
-      + apply IH; auto. apply (distinct_tail _ _ D).
+        assert (G0 : good k0 = true) by (apply G; left; reflexivity).
+        assert (Gk : good k = true) by (apply G; right; exact Ik).
+        rewrite (eqb_trans _ _ _ OK _ _ _ G0 Gv Gk E0 (eqb_sym _ _ _ OK _ _ Gk Gv E)) in X. discriminate.
+      + apply IH; auto. apply (allgood_tail _ _ _ G). apply (distinct_tail _ _ D).
   Qed.
 
   Lemma dict_get_none (d : list (V * entry)) v :
@@ -182,27 +213,34 @@ Section Dict.
     rewrite insert_key_perm. constructor. exact IH.
   Qed.
 
-  Lemma insert_key_sorted x l : StronglySorted le l -> StronglySorted le (insert_key leb x l).
+  Lemma insert_key_sorted x l :
+    good x = true -> allgood good l -> StronglySorted le l -> StronglySorted le (insert_key leb x l).
   Proof.
-    induction l as [|y r IH]; simpl; intro S.
+    intro Gx. induction l as [|y r IH]; simpl; intros G S.
     - constructor; constructor.
-    - inversion S as [|? ? S' F]. subst. destruct (leb x y) eqn:E.
+    - assert (Gy : good y = true) by (apply G; left; reflexivity).
+      inversion S as [|? ? S' F]. subst. destruct (leb x y) eqn:E.
       + constructor; [exact S|]. constructor; [exact E|].
-        eapply Forall_impl; [|exact F]. intros z Hz. unfold le in *. apply (leb_trans _ _ OK _ _ _ E Hz).
-      + constructor; [apply IH; exact S'|].
-        assert (Eyx : le y x) by (destruct (leb_total _ _ OK x y) as [H|H]; [rewrite H in E; discriminate | exact H]).
+        rewrite Forall_forall in F. apply Forall_forall. intros z Iz. unfold le in *.
+        apply (leb_trans _ _ _ OK x y z Gx Gy (G z (or_intror Iz)) E (F z Iz)).
+      + constructor; [apply IH; [apply (allgood_tail _ _ _ G) | exact S']|].
+        assert (Eyx : le y x) by (destruct (leb_total _ _ _ OK x y Gx Gy) as [H|H]; [rewrite H in E; discriminate | exact H]).
         apply (Permutation_Forall (Permutation_sym (insert_key_perm x r))).
         constructor; assumption.
   Qed.
 
-  Lemma sort_keys_sorted l : StronglySorted le (sort_keys leb l).
-  Proof. induction l as [|x l IH]; simpl; [constructor | apply insert_key_sorted; exact IH]. Qed.
+  Lemma sort_keys_sorted l : allgood good l -> StronglySorted le (sort_keys leb l).
+  Proof.
+    induction l as [|x l IH]; simpl; intro G; [constructor|].
+    apply insert_key_sorted; [apply G; left; reflexivity | | apply IH; apply (allgood_tail _ _ _ G)].
+    apply (allgood_perm good l); [apply (allgood_tail _ _ _ G) | apply sort_keys_perm].
+  Qed.
 
   (* two sorted arrangements of the same pairwise different keys are the same list *)
-  Lemma sorted_unique l1 : forall l2,
+  Lemma sorted_unique l1 : forall l2, allgood good l1 ->
     StronglySorted le l1 -> StronglySorted le l2 -> Permutation l1 l2 -> distinct eqb l1 -> l1 = l2.
   Proof.
-    induction l1 as [|a l1 IH]; intros l2 S1 S2 P D.
+    induction l1 as [|a l1 IH]; intros l2 G S1 S2 P D.
     - apply Permutation_nil in P. subst. reflexivity.
     - destruct l2 as [|b l2]; [apply Permutation_sym, Permutation_nil in P; discriminate|].
       assert (E : a = b).
@@ -212,17 +250,21 @@ Section Dict.
         exfalso. inversion S1 as [|? ? _ F1]. inversion S2 as [|? ? _ F2]. subst.
         rewrite Forall_forall in F1, F2.
         destruct (distinct_head _ _ _ D Ib) as [X _].
-        rewrite (leb_antisym _ _ OK _ _ (F1 _ Ib) (F2 _ Ia)) in X. discriminate. }
+        rewrite (leb_antisym _ _ _ OK _ _ (G a (or_introl eq_refl)) (G b (or_intror Ib)) (F1 _ Ib) (F2 _ Ia)) in X. discriminate. }
       subst b. f_equal. apply IH.
+      + apply (allgood_tail _ _ _ G).
       + inversion S1; assumption.
       + inversion S2; assumption.
       + apply (Permutation_cons_inv P).
       + apply (distinct_tail _ _ D).
   Qed.
 
-  Lemma sort_keys_perm_eq l l' : distinct eqb l -> Permutation l l' -> sort_keys leb l = sort_keys leb l'.
+  Lemma sort_keys_perm_eq l l' : allgood good l -> distinct eqb l -> Permutation l l' -> sort_keys leb l = sort_keys leb l'.
   Proof.
-    intros D P. apply sorted_unique; try apply sort_keys_sorted.
+    intros G D P. apply sorted_unique.
+    - apply (allgood_perm good l _ G). apply sort_keys_perm.
+    - apply sort_keys_sorted. exact G.
+    - apply sort_keys_sorted. apply (allgood_perm good l _ G). apply Permutation_sym. exact P.
     - rewrite sort_keys_perm, sort_keys_perm. exact P.
     - apply (distinct_perm l); [exact D | apply Permutation_sym, sort_keys_perm].
   Qed.
